@@ -266,6 +266,11 @@ def gen_grid_cases(ctx):
 
 def cases(ctx):
     yield from gen_grid_cases(ctx)
+    # radial grids starting at 0 (accepted by get_increments since commit cae935f) and invalid ones: model <-> implementation only;
+    # the property needs positive radii, so these stay out of the oracle
+    for o, t in [("ico_12", "[0, 0.1]"), ("ico_12", "[0, 0.2, 0.5]"), ("ico_12", "[0]"), ("cube3D_8", "[0,0.3]"),
+                 ("randomS_9", "[0, 0.15]"), ("ico_12", "[0.1, 0.1, 0.3]"), ("ico_12", "[0, 0, 0.3]"), ("ico_7", "linspace(0,0.4,3)")]:
+        yield {"kind": "grid", "o": o, "t": t, "corr_only": True}
     # the same diagrams with rotated region lists (vertex at infinity not in first place)
     for o, t in [("randomS_5", "[0.2,0.3]"), ("ico_4", "[0.15,0.3,0.5]"), ("ico_12", "[0.2,0.3]"), ("cube3D_9", "[0.3]")]:
         yield {"kind": "grid", "o": o, "t": t, "rot": ctx.rng.randint(1, 3)}
@@ -322,7 +327,16 @@ def _impl_grid(case):
             tg = np.array(pg.t_grid.trans_grid, dtype=float)
             vor = pg.voronoi_cells
     except Exception as e:
-        return {"err": core.errname(e), "msg": str(e)[:200]}
+        res = {"err": core.errname(e), "msg": str(e)[:200]}
+        try:
+            # the two sub-grids, without the Cartesian branch of __init__ (no get_increments, no Voronoi)
+            with core.quiet():
+                pg0 = PositionGrid(case["o"], case["t"], position_grid_cartesian=False)
+                res["og"] = np.array(pg0.get_o_grid().get_grid_as_array(only_upper=False), dtype=float)
+                res["tg"] = np.array(pg0.t_grid.trans_grid, dtype=float)
+        except Exception:
+            pass
+        return res
     return {"V": V, "S": (S.row.copy(), S.col.copy(), np.array(S.data, dtype=float)), "Sshape": S.shape,
             "D": (D.row.copy(), D.col.copy(), np.array(D.data, dtype=float)), "Dshape": D.shape,
             "A": (A.row.copy(), A.col.copy()), "Ashape": A.shape, "polys": polys, "pts": pts, "og": og, "radii": radii, "tg": tg,
@@ -345,6 +359,8 @@ def model_ops(case, out):
     if case["kind"] == "poly":
         return [{"op": case.get("op", "order"), "pts": _pts(case["pts"])}]
     if "err" in out:
+        if "og" in out:
+            return [{"op": "extended", "o": _pts(out["og"]), "t": [core.rat(v) for v in out["tg"]]}]
         return []
     adjS = [[int(r), int(c)] for r, c in zip(out["S"][0], out["S"][1])]
     adjD = [[int(r), int(c)] for r, c in zip(out["D"][0], out["D"][1])]
@@ -460,6 +476,17 @@ def _compare_poly(ctx, case, out, m):
 def _compare_grid(ctx, case, out, ms):
     if "err" in out:
         ctx.branch("grid/error:" + out["err"])
+        if ms:
+            # the model's guards (IndexError / AssertionError of get_increments) against the implementation's exception; where
+            # the model builds the extended point set the implementation can only fail inside scipy/qhull (external)
+            m = ms[0]
+            if "err" in m:
+                if m["err"] != out["err"]:
+                    ctx.corr("cartesian/outcome of the extended radial grid", case, out["err"], m)
+            elif out["err"] != "other:QhullError":
+                ctx.corr("cartesian/outcome of the extended radial grid", case, out["err"], "extended point set is built")
+            else:
+                ctx.branch("grid/qhull_error_on_a_point_set_the_model_builds(external)")
         return
     for m, what in zip(ms, ("extended", "surfaces", "distances", "volumes")):
         if "err" in m:
@@ -487,6 +514,10 @@ def _compare_grid(ctx, case, out, ms):
             return
         a = _area_from_fan2(mk["fan2"])
         d = _diam(mp)
+        if out["point_region"][int(r)] == out["point_region"][int(c)]:
+            # coincident grid points (zero first radius): the "polygon" is the whole region, not planar, full of exact angle ties
+            ctx.branch("grid/entries_of_coincident_points(area not compared)")
+            continue
         if abs(a - v) > REL * a + 1e-11 * d * d:
             ctx.corr("cartesian/border area", case, {"entry": [int(r), int(c)], "area": float(v)}, {"area": a, "order": mk["idx"], "shared": mk["shared"]})
             return
@@ -605,6 +636,9 @@ def _face_area(W, pi, pj, scale):
 def _oracle_grid(ctx, case, out):
     from scipy.spatial import ConvexHull
     o = case["o"]
+    if case.get("corr_only"):
+        ctx.branch("grid/zero_first_or_invalid_radial_grid(correspondence only)")
+        return
     ctx.branch("grid/alg=" + o.split("_")[0])
     if "err" in out:
         ctx.fail("C06:exception", f"Cartesian position grid raised {out['err']}: {out.get('msg')}", case)
